@@ -16,6 +16,20 @@ PROPS = {
                    "the plasma stream once the mock-node harness is attached",
         "assumptions": ["SHA3-256 is an uninterpreted parameter of checkPoWNonce"],
     },
+    "C13": {
+        "module": "ZenonVerif.Props.C13",
+        "streams": [S("codec", 4000, 400000)],
+        "rule": "codec stream: generated account blocks of all 5 block types (plus out-of-range types), up to 3 levels of "
+                "nested descendants, amounts nil/0/1/2^255-1/2^255/2^256-1/2^256/33+ bytes/negative, uint64 fields on varint "
+                "boundaries, data nil/empty/127/128/16383/16384/20000 bytes, and momentums with 0..101 content entries; "
+                "one evaluation = one value pushed through the real ComputeHash / Serialize / Deserialize / JSON / RLP code "
+                "and the same operation replayed by the Lean model; distinct = distinct (op,result) lines",
+        "partial": "hash function is a parameter (injective on the inputs that arise); stream `variants` (two nodes) and the "
+                   "acceptance-side theorem uncovered_fields_normalised (T2) are not part of this check yet; JSON object "
+                   "structure and RLP are tied by Go-side round-trip monitors only",
+        "assumptions": ["SHA3-256 (types.NewHash) is an uninterpreted parameter H: fixed 32-byte output, collision-free on the "
+                        "pre-images, data and descendant/content sources of the blocks compared"],
+    },
     "C18": {
         "module": "ZenonVerif.Props.C18",
         "streams": [S("paging", 30000, 2000000)],
